@@ -46,7 +46,9 @@ C06_AtMostOnce == AtMostOnce(delivered \o q, Msgs, rcv)
 NeverDelivers  == delivered = <<>>
 
 M(f, i, t, n, g) == [from |-> f, id |-> i, type |-> t, n |-> n, tag |-> g]
-MsgsQuick    == {M(2, 7, 0, 3, 1), M(3, 7, 65, 2, 1)}          \* two senders, coinciding ids, 3 and 2 fragments
-MsgsThorough == {M(2, 7, 0, 3, 1), M(3, 7, 65, 2, 1), M(2, 8, 1, 4, 2)}   \* ids coincide only across senders
-MsgsBig      == {M(2, 7, 0, 5, 1), M(3, 7, 65, 6, 1), M(4, 7, 1, 7, 1)}
+\* message types are chosen to coincide with fragment counter values of the same message (the last fragment carries the
+\* type in the very byte the other fragments use for the counter): type 2 with 3 or 4 fragments, 3 with 5, 5 with 7
+MsgsQuick    == {M(2, 7, 2, 3, 1), M(3, 7, 65, 2, 1)}          \* two senders, coinciding ids, 3 and 2 fragments
+MsgsThorough == {M(2, 7, 2, 3, 1), M(3, 7, 65, 2, 1), M(2, 8, 2, 4, 2)}   \* ids coincide only across senders
+MsgsBig      == {M(2, 7, 3, 5, 1), M(3, 7, 65, 6, 1), M(4, 7, 5, 7, 1)}
 =============================================================================
